@@ -34,6 +34,10 @@ CHECKS = {
    "bounded-exhaustive enumeration of programs (all ASTs up to a size bound x surface-syntax variants) executed by the real shell and compared with a reference interpreter; exhaustive command-search table",
    "Every AST of at most 4 (quick, 12k programs / 50k runs) or 5 (thorough, 223k programs / 890k runs) nodes over the core command language (probes with status 0/1, sequential lists, &&/|| chains, !, two-stage pipelines, brace groups, subshells, if/else, while/until, for with 0/2 items, case with 1-2 arms, function definition+call, break/continue [n], return [n], exit [n]) is printed in 16 (size <= 3) or 4 orthogonal surface variants (newline vs `;`, extra blanks, comments, backslash-newline) and executed to completion by the whole shell; the per-process sequence of markers with the $? each saw, the final exit status and stderr emptiness must equal the reference interpreter refsh for every variant (so variants also agree with each other). Cases POSIX leaves unspecified are skipped and counted. The command-search order is checked on the full table builtin kind {none, special, mandatory, elective, substitutive} x function x executable in PATH dir 1 / dir 2 (40 cases).",
    "refsh is trusted (cross-checked against dash/bash during development); pipelines run under the default schedule here (C13 covers schedules)."),
+ "C10": ("exploration", "DESIGN.md §3 C10",
+   "bounded-exhaustive enumeration: every program of the C02 generator with each failure category planted at every probe position x errexit on/off (+ job control, + syntax error on a later line, + errexit toggled mid-script), executed by the real shell and compared with the reference interpreter extended by the documented shell-error table",
+   "Every C02 program of at most 3 (quick, 12.6k cases) / 4 (thorough, 370k cases) nodes is run (a) unchanged with errexit off and on, with `set -m` when it contains a pipeline, and with a syntax error on a later line; (b) with each of 13 failure categories (command not found; redirection error on regular built-in, function, compound command, special built-in, command-wrapped special built-in; read-only assignment prefixed to a special built-in, a regular built-in, nothing; ${u?}; unset variable under nounset; special built-in usage error directly and via `command`) planted at every probe position, errexit off and on; (c) with errexit toggled mid-script. Every script installs an EXIT trap and ends with a final probe. The reference interpreter tracks the dynamic condition-context depth (if/while/until conditions, non-final and-or elements, `!`, through function calls) and the manual's consequences-of-shell-errors table; the markers with their $?, the absence of anything after the abort point, the exit status (exact where documented, non-zero where the manual only says so) and exactly one EXIT-trap execution are compared.",
+   "refsh + docs/src/termination.md table trusted; default schedule on the simulated OS; the private glue yash_cli::run_as_shell_process is reproduced from its public pieces in the harness."),
 }
 
 NOT_YET = {
